@@ -47,6 +47,13 @@ fn mk(kind: TypeInfoKind, value: Value, fixed_point: Option<FixedPoint>) -> Argu
 /// integer gives), all kinds symbolic, presence of fixed-point data symbolic.
 fn check(value: Value, vf: f64, off: FixedPointValue, off_i: i128) {
     let q: f32 = kani::any();
+    check_q(value, vf, off, off_i, q, true);
+}
+
+/// `q_symbolic` = false: the quantisation is a literal (64-bit values with a fully
+/// symbolic f32 factor take 15-50 min; literal factors keep the int->double rounding
+/// and the u64/i64 conversions symbolic and finish in seconds).
+fn check_q(value: Value, vf: f64, off: FixedPointValue, off_i: i128, q: f32, q_symbolic: bool) {
     let kind = any_kind();
     let fp_kind = is_fp_kind(&kind);
     let has_fp: bool = kani::any();
@@ -67,9 +74,11 @@ fn check(value: Value, vf: f64, off: FixedPointValue, off_i: i128) {
                 kani::cover!(t > 0 && off_i > 0, "positive product and offset");
             }
         }
-        kani::cover!(q.is_nan(), "NaN quantization");
-        kani::cover!(q < 0.0, "negative quantization");
-        kani::cover!(q.is_infinite(), "infinite quantization");
+        if q_symbolic {
+            kani::cover!(q.is_nan(), "NaN quantization");
+            kani::cover!(q < 0.0, "negative quantization");
+            kani::cover!(q.is_infinite(), "infinite quantization");
+        }
     }
     std::mem::forget(arg);
 }
@@ -99,6 +108,26 @@ c18_int!(c18_u8_off32, c18_u8_off64, U8, u8);
 c18_int!(c18_u16_off32, c18_u16_off64, U16, u16);
 c18_int!(c18_u32_off32, c18_u32_off64, U32, u32);
 c18_int!(c18_u64_off32, c18_u64_off64, U64, u64);
+
+macro_rules! c18_int_literal_q {
+    ($name:ident, $variant:ident, $ty:ty, $offvariant:ident, $offty:ty) => {
+        #[kani::proof]
+        fn $name() {
+            let qs: [f32; 5] = [1.0, 0.25, 0.125, 3.0, -1.0];
+            let mut i = 0;
+            while i < 5 {
+                let v: $ty = kani::any();
+                let o: $offty = kani::any();
+                check_q(Value::$variant(v), v as f64, FixedPointValue::$offvariant(o), o as i128, qs[i], false);
+                i += 1;
+            }
+        }
+    };
+}
+c18_int_literal_q!(c18_u64_off32_literal_q, U64, u64, I32, i32);
+c18_int_literal_q!(c18_u64_off64_literal_q, U64, u64, I64, i64);
+c18_int_literal_q!(c18_i64_off64_literal_q, I64, i64, I64, i64);
+c18_int_literal_q!(c18_u32_off64_literal_q, U32, u32, I64, i64);
 
 /// Every non-integer (or 128-bit) value variant, every kind, fixed-point data
 /// present or not: never a value, never a panic.
